@@ -41,11 +41,18 @@ pub fn solve_real_lp_problem_clarabel(lp: &LinearModel) -> Result<LpSolution<f64
     // the back end cannot be given a problem without columns (it panics)
     if let Some(verdict) = variable_free_verdict(lp) {
         verdict?;
-        return Ok(LpSolution::new(
-            vec![],
-            lp.objective_offset(),
-            IndexMap::new(),
-        ));
+        // a satisfied comparison between constants stays satisfied when its
+        // right-hand side moves a little: every named row has price zero
+        let shadow_prices = lp
+            .constraints()
+            .iter()
+            .filter(|row| !row.name().is_empty())
+            .map(|row| (row.name(), 0.0))
+            .collect::<IndexMap<String, f64>>();
+        return Ok(
+            LpSolution::new(vec![], lp.objective_offset(), IndexMap::new())
+                .with_shadow_prices(shadow_prices),
+        );
     }
     match solve_with_clarabel(lp) {
         // A dual-infeasible status only proves an improving ray. The model is
